@@ -48,6 +48,7 @@ def gen_pure(ctx):
     def gv(h, k, klass):
         cases.append({"op": "getvalue", "header": hx(h), "key": hx(k), "klass": klass})
 
+    cases.append({"op": "consts", "klass": "consts"})
     # corpus
     gv(b"realm=", b"realm", "gv-corpus")
     gv(b'realm="x', b"realm", "gv-corpus")
@@ -76,7 +77,7 @@ def gen_pure(ctx):
 
 
 def monitor_pure(ctx, c, o):
-    if "panic" in o:
+    if "panic" in o and c["op"] != "consts":
         what = "getValue" if c["op"] == "getvalue" else "parseRegistryChallenge"
         inp = bytes.fromhex(c.get("header") or c.get("auth"))
         ctx.violation({"class": "crash", "where": "server.getValue"},
@@ -89,6 +90,8 @@ def render_pure(c, o):
         return cq_bytes(bytes.fromhex(h))
     if "panic" in o:
         return "false"
+    if c["op"] == "consts":
+        return "chk_consts %s %s %s %d%%nat" % (cq_Z(o["num"]), cq_Z(o["min"]), cq_Z(o["max"]), o["retries"])
     if c["op"] == "getvalue":
         return "chk_getvalue %s %s %s" % (bl(c["header"]), bl(c["key"]), bl(o["v"]))
     return "chk_challenge %s %s %s %s" % (bl(c["auth"]), bl(o["realm"]), bl(o["service"]), bl(o["scope"]))
@@ -199,11 +202,11 @@ def gen_hist(ctx):
     q = ctx.quick()
     rep = 1 if q else 6
 
-    # --- corpus: the two histories that exposed the defects of the unrepaired tree
-    A, B = b"hello world", b"config"
-    add("corpus-realm", [A, B], [pull_step("ns/m:t", [{"blob": 0}], {"blob": 1}, {"manifest": [{"status": 401, "hdr": {"Www-Authenticate": "realm="}}]})], tail=0)
-    add("corpus-corrupt-then-clean", [A, B], [pull_step("ns/m:t", [{"blob": 0}, {"blob": 1}], None, {"cdn:0:10": [{"flip": 3}], "head:1": [{"status": 500}]})])
-    add("corpus-duplicate-digest", [A, B], [pull_step("ns/m:t", [{"blob": 0}, {"blob": 0}], {"blob": 1}, {"cdn:0:10": [{"flip": 5}]})])
+    # --- corpus first: minimal histories that once violated the property (corpus/C03/*.json)
+    cdir = os.path.join(vlib.VERIF, "corpus", "C03")
+    for fn in sorted(os.listdir(cdir)) if os.path.isdir(cdir) else []:
+        if fn.endswith(".json"):
+            H.append(json.load(open(os.path.join(cdir, fn))))
 
     for _ in range(rep):
         # --- A: clean pulls, re-pulls, replaced manifests (prune), two names sharing layers
@@ -262,6 +265,10 @@ def gen_hist(ctx):
         add("get-cross-302", b[:1], [pull_step("ns/m:t", [{"blob": 0}], None, {"get:0": [{"status": 302}]})], tail=1)
         add("get-cross-308", b[:1], [pull_step("ns/m:t", [{"blob": 0}], None, {"get:0": [{"status": 308}]})], tail=1)
         add("get-200-with-location", b[:1], [pull_step("ns/m:t", [{"blob": 0}], None, {"get:0": [{"status": 200}]})], tail=0)
+        add("get-307-no-location", b[:1], [pull_step("ns/m:t", [{"blob": 0}], None, {"get:0": [{"status": 307, "to": "direct", "raw": ""}]})], tail=1)
+        add("get-too-many-redirects", b[:1], [pull_step("ns/m:t", [{"blob": 0}], None, {"get:0": [{"to": "same"}], "alt:0": [{"to": "same"} for _ in range(11)]})], tail=0)
+        add("get-ten-redirects", b[:1], [pull_step("ns/m:t", [{"blob": 0}], None, {"get:0": [{"to": "same"}], "alt:0": [{"to": "same"} for _ in range(9)]})], tail=0)
+        add("no-key-401", b[:1], [pull_step("ns/m:t", [{"blob": 0}], None, {rng.choice(["manifest", "head:0", "get:0"]): [{"status": 401, "hdr": {"Www-Authenticate": GOOD_AUTH}}]})], tail=1, nokey=True)
         add("get-204", b[:1], [pull_step("ns/m:t", [{"blob": 0}], None, {"get:0": [{"status": 204, "to": "direct", "raw": ""}]})], tail=1)
 
         # --- E: faults of the ranged GETs (at most two failing tries per part: the back-off sleeps are 1 s, 2 s, ...)
@@ -318,6 +325,16 @@ def gen_hist(ctx):
                 plant["data"] = hx(bytes(data))
             add("resume-planted" + ("-corrupt" if corrupt else ""), [blob, b[1]], [plant, pull_step("ns/m:t", [{"blob": 0}, {"blob": 1}], None, sc)], tail=2, cost=8)
 
+        # resume state that no interrupted attempt can have written: a gap between parts, progress beyond the part size
+        blob = rnd_blob(rng, 12, 30)
+        h = len(blob) // 2
+        add("resume-planted-gap", [blob], [{"t": "plant", "blob": 0, "data": hx(blob), "parts": [{"N": 0, "Offset": 0, "Size": h - 2, "Completed": h - 2}, {"N": 1, "Offset": h, "Size": len(blob) - h, "Completed": 0}]},
+                                           pull_step("ns/m:t", [{"blob": 0}])], tail=2)
+        add("resume-planted-overdone", [blob], [{"t": "plant", "blob": 0, "data": hx(blob), "parts": [{"N": 0, "Offset": 0, "Size": h, "Completed": h + 3}, {"N": 1, "Offset": h, "Size": len(blob) - h, "Completed": 1}]},
+                                                pull_step("ns/m:t", [{"blob": 0}])], tail=2)
+        add("resume-planted-all-done", [blob], [{"t": "plant", "blob": 0, "data": hx(blob), "parts": [{"N": 0, "Offset": 0, "Size": len(blob), "Completed": len(blob)}]},
+                                                pull_step("ns/m:t", [{"blob": 0}])], tail=1)
+
         # --- I: a manifest that lies about a layer's size
         add("manifest-size-lie", b[:2], [pull_step("ns/m:t", [{"blob": 0, "size": len(b[0]) + 1}, {"blob": 1}])], tail=0)
         # --- non-canonical digest spellings (monitor only)
@@ -329,7 +346,12 @@ def gen_hist(ctx):
         for key in ["head:0", "get:0", "cdn:0:%d" % (len(b[0]) - 1), "head:1", "cdn:1:%d" % (len(b[1]) - 1)]:
             st = pull_step("ns/m:t", [{"blob": 0}, {"blob": 1}], None, {})
             st["cancel"] = {"key": key, "n": 1}
-            add("cancel-at-" + key.split(":")[0], b[:2], [st], tail=2, nomodel=True)
+            add("cancel-at-" + key.split(":")[0], b[:2], [st], tail=2)
+        # progress persisted by an interrupted transfer, then the client goes away at the retry
+        n0 = len(b[0])
+        st = pull_step("ns/m:t", [{"blob": 0}, {"blob": 1}], None, {"cdn:0:%d" % (n0 - 1): [{"cut": rng.randrange(1, n0) if n0 > 1 else 0, "end": "unexp", "cl": n0}]})
+        st["cancel"] = {"key": "cdn:0:%d" % (n0 - 1), "n": 2}
+        add("progress-then-cancel", b[:2], [st], tail=2)
 
     # --- G: random multi-attempt histories
     n = 12 if q else 150
@@ -368,6 +390,39 @@ def gen_layout(ctx):
     for t in totals:
         out.append({"op": "hist", "klass": "layout", "blobs": [hx(b"x")], "big": True, "cost": 1, "layout_total": t,
                     "steps": [{"t": "pull", "name": "ns/m:t", "manifest": {"layers": [{"blob": 0}]}, "script": {"head:0": [{"cl": t}], "get:0": [{"status": 302}]}}]})
+    return out
+
+
+def gen_big(ctx):
+    """thorough tier: blobs above minDownloadPartSize (several parts on the implementation), the stall timer, and a part
+    that exhausts maxRetries.  Bodies are generated inside the harness; only digests and sizes travel."""
+    rng = ctx.rng
+    MB = 1000 * 1000
+    out = []
+
+    def add(klass, blobs, steps, cost, timeout=400, **kw):
+        c = {"op": "hist", "klass": klass, "blobs": blobs, "steps": clean_tail(steps, 2), "cost": cost, "timeout": timeout}
+        c.update(kw)
+        out.append(c)
+    n = 250 * MB + rng.randrange(1, 1000)
+    big = {"gen": rng.randrange(1 << 30), "n": n}
+    ends = [100 * MB - 1, 200 * MB - 1, n - 1]
+    small = hx(b"small layer")
+    L = [{"blob": 0}, {"blob": 1}]
+    add("big-clean", [big, small], [pull_step("ns/m:t", L)], 100, big=True)
+    add("big-part-interrupted", [big, small], [pull_step("ns/m:t", L, None, {"cdn:0:%d" % ends[1]: [{"cut": rng.randrange(1, 100 * MB), "end": "unexp", "cl": 100 * MB}]})], 100, big=True)
+    add("big-part-range-ignored", [big, small], [pull_step("ns/m:t", L, None, {"cdn:0:%d" % ends[1]: [{"mode": "full"}]})], 100, big=True)
+    add("big-part-flipped", [big, small], [pull_step("ns/m:t", L, None, {"cdn:0:%d" % ends[2]: [{"flip": rng.randrange(1, 50 * MB)}]})], 100, big=True)
+    add("big-part-flipped-then-layer-fails", [big, small], [pull_step("ns/m:t", L, None, {"cdn:0:%d" % ends[0]: [{"flip": 7}], "head:1": [{"status": 500}]})], 100, big=True)
+    st = pull_step("ns/m:t", L, None, {})
+    st["cancel"] = {"key": "cdn:0:%d" % ends[1], "n": 1}
+    add("big-cancel", [big, small], [st], 100, big=True)
+    # small blobs, slow timers
+    b0 = rnd_blob(rng, 10, 30)
+    e0 = len(b0) - 1
+    add("stall", [hx(b0), small], [pull_step("ns/m:t", L, None, {"cdn:0:%d" % e0: [{"cut": rng.randrange(1, len(b0)), "cl": len(b0), "stall": 34}]})], 90)
+    add("max-retries", [hx(b0), small], [pull_step("ns/m:t", L, None, {"cdn:0:%d" % e0: [{"cut": rng.randrange(0, len(b0))} for _ in range(6)]})], 150)
+    add("max-retries-with-progress", [hx(b0), small], [pull_step("ns/m:t", L, None, {"cdn:0:%d" % e0: [{"cut": 1, "end": "unexp", "cl": len(b0)}] + [{"nohdr": True} for _ in range(5)]})], 150)
     return out
 
 
@@ -510,6 +565,8 @@ def token_ok(e):
 
 
 def cq_hresp(ids, e, served, reg_host):
+    if e.get("cancelled"):
+        return "(mkH true 0 (@nil N) false None 0 None)"
     tok = False
     if e["status"] == 401:
         nxt = [x for x in served if x["seq"] == e["seq"] + 1]
@@ -530,8 +587,12 @@ def cq_hresp(ids, e, served, reg_host):
 
 
 def cq_cresp(e):
+    if e.get("cancelled"):
+        return "(CCancel (@nil N))"
     if e["end"] == "nohdr":
         return "CFail"
+    if e["end"] == "stall":
+        return "(CStall %s)" % cq_bytes(bytes.fromhex(e["body"]))
     return "(CBody %s %s)" % (cq_bytes(bytes.fromhex(e["body"])), {"clean": "EClean", "unexp": "EUnexp", "reset": "EOther"}[e["end"]])
 
 
@@ -547,7 +608,14 @@ def final_chunks(served):
 
 
 def render_pull(ids, digests, tab, pre, step_case, so, reg_host):
-    served = so["served"]
+    served = [dict(e) for e in so["served"]]
+    cs = step_case.get("cancel")
+    if cs:
+        # the client went away when the n-th request for this key arrived (the fake answers 150 ms later, to a
+        # request that has been abandoned): in the model that request fails / is cancelled before any byte
+        hit = [e for e in served if e["k"] == cs["key"]]
+        if len(hit) >= cs["n"]:
+            hit[cs["n"] - 1]["cancelled"] = True
     name_rel = "%s/%s" % (reg_host, step_case["name"].replace(":", "/"))
     by = {}
     for e in served:
@@ -588,16 +656,37 @@ def render_hist(c, o):
     out = []
     if "steps" not in o:
         return out
-    blobs = [bytes.fromhex(b) for b in c["blobs"]]
     ids = Ids(o["digests"])
-    tab = cq_list(["(%s, %s)" % (cq_bytes(b), cq_N(i + 1)) for i, b in enumerate(blobs)], "(bytes * digest)")
+    tab = None
+    if not c.get("big"):
+        blobs = [bytes.fromhex(b) for b in c["blobs"]]
+        tab = cq_list(["(%s, %s)" % (cq_bytes(b), cq_N(i + 1)) for i, b in enumerate(blobs)], "(bytes * digest)")
     pre = EMPTY_SNAP
     for si, (sc, so) in enumerate(zip(c["steps"], o["steps"])):
         if sc["t"] == "pull":
             if c.get("layout_total") is not None:
                 recs = sorted(((int(fn.rsplit("-", 1)[1]), e["rec"]) for fn, e in so["store"]["blobs"].items() if "-partial-" in fn))
                 out.append((si, "chk_layout %s %s" % (cq_Z(c["layout_total"]), cq_list([cq_part(r) for _, r in recs], "part")), None))
-            elif c.get("nomodel") or sc.get("cancel"):
+            elif c.get("big"):
+                # several parts on the implementation: the first request of every part of a blob that had no resume state
+                # must be exactly Prepare's layout for the announced size
+                had = set(fn.split("-partial")[0] for fn in pre["blobs"] if "-partial" in fn)
+                for i, b in enumerate(c["blobs"]):
+                    if sc.get("cancel"):
+                        break
+                    if "sha256-" + o["digests"][i].split(":")[1] in had or not any(e["k"] == "head:%d" % i for e in so["served"]):
+                        continue
+                    total = [e["body_n"] for e in so["served"] if e["k"] == "head:%d" % i][-1]
+                    firsts = {}
+                    for e in final_chunks(so["served"]):
+                        if int(e["k"].split(":")[1]) == i and e["range"]:
+                            firsts.setdefault(e["range"][1], e["range"][0])
+                    if not firsts:
+                        continue
+                    parts = [{"Offset": a, "Size": z - a + 1, "Completed": 0} for z, a in sorted(firsts.items())]
+                    out.append((si, "chk_layout %s %s" % (cq_Z(total), cq_list([cq_part(p) for p in parts], "part")), None))
+                out.append((si, None, "big blobs: monitor + layout only"))
+            elif c.get("nomodel"):
                 out.append((si, None, "monitor-only class"))
             else:
                 try:
@@ -635,6 +724,68 @@ def check_manifest_layers(store, m):
         elif e.get("size") != l.get("size", 0):
             bad.append(("size", l))
     return bad
+
+
+class Sink:
+    """collects what the monitor reports for one case (same interface as Ctx.violation / Ctx.mismatch)"""
+
+    def __init__(self):
+        self.violations, self.mismatches = [], []
+
+    def violation(self, sig, what, replay):
+        self.violations.append({"sig": sig, "what": what, "replay": replay})
+
+    def mismatch(self, obligation, case, impl, model=None):
+        self.mismatches.append((obligation, case, impl, model))
+
+
+def sigkey(sig):
+    return json.dumps(sig, sort_keys=True)
+
+
+def shrink_candidates(c):
+    """smaller histories: one step dropped, one scripted fault dropped, one layer dropped"""
+    out = []
+    steps = c["steps"]
+    for i in range(len(steps)):
+        if len(steps) > 1:
+            out.append(dict(c, steps=steps[:i] + steps[i + 1:]))
+    for i, st in enumerate(steps):
+        if st["t"] != "pull":
+            continue
+        for k, l in st.get("script", {}).items():
+            for j in range(len(l)):
+                sc = {kk: (vv[:j] + vv[j + 1:] if kk == k else vv) for kk, vv in st["script"].items()}
+                sc = {kk: vv for kk, vv in sc.items() if vv}
+                out.append(dict(c, steps=steps[:i] + [dict(st, script=sc)] + steps[i + 1:]))
+        if st.get("cancel"):
+            out.append(dict(c, steps=steps[:i] + [{kk: vv for kk, vv in st.items() if kk != "cancel"}] + steps[i + 1:]))
+    return out
+
+
+def shrink(ctx, binp, env, c, sig, rounds=3):
+    """greedy: re-run the smaller histories on the implementation, keep one that shows the same violation class"""
+    want = sigkey(sig)
+    best = None
+    for _ in range(rounds):
+        cands = shrink_candidates(best[0] if best else c)[:24]
+        if not cands:
+            break
+        obs, _err = ctx.run_jsonl(binp, cands, timeout=600, env=env)
+        if obs is None or len(obs) != len(cands):
+            break
+        found = None
+        for cc, oo in sorted(zip(cands, obs), key=lambda x: len(json.dumps(x[0]))):
+            sk = Sink()
+            monitor_hist(sk, cc, oo)
+            hit = [v for v in sk.violations if sigkey(v["sig"]) == want]
+            if hit:
+                found = (cc, oo, hit[0])
+                break
+        if not found:
+            break
+        best = found
+    return best
 
 
 def monitor_hist(ctx, c, o):
@@ -711,12 +862,16 @@ def monitor_hist(ctx, c, o):
         prev_store = store
 
 
+def blob_len(b):
+    return b["n"] if isinstance(b, dict) else len(bytes.fromhex(b))
+
+
 def oversized_record(c, o, store):
     """a part record that reaches beyond the end of the published blob: (record, blob length) or None"""
     for fn, e in sorted(store["blobs"].items()):
         mm = re.match(r"^sha256-([0-9a-f]{64})-partial-\d+$", fn)
         if mm and "rec" in e:
-            tl = [len(bytes.fromhex(b)) for b, d in zip(c["blobs"], o["digests"]) if d.endswith(mm.group(1))]
+            tl = [blob_len(b) for b, d in zip(c["blobs"], o["digests"]) if d.endswith(mm.group(1))]
             if tl and e["rec"]["Offset"] + e["rec"]["Size"] > tl[0]:
                 return e["rec"], tl[0]
     return None
@@ -745,10 +900,12 @@ def run(ctx, only=None):
                        "size clause of C03_success_verified: the published manifest is self-consistent (each size is the length of the blob with that digest)",
                        "C03_retry_possible: part records on disk were sized by a truthful Content-Length (guard of the _partial theorem)"]
     ctx.proof_stage(["Pull"], "Pull/Properties_C03.v", extra_targets=["Pull/Corr.v"])
+    if not ctx.quick() and only is None:
+        ctx.coqchk(["V.Pull.Properties_C03", "V.Pull.Corr"])
     binp = ctx.go_build("c03")
     if not binp:
         return
-    cases = only if only is not None else (gen_pure(ctx) + gen_hist(ctx) + gen_layout(ctx))
+    cases = only if only is not None else (gen_pure(ctx) + gen_hist(ctx) + gen_layout(ctx) + ([] if ctx.quick() else gen_big(ctx)))
     env = vlib.goenv()
     env["C03_JOBS"] = str(max(8, min(48, (os.cpu_count() or 8) * 2)))
     obs, err = ctx.run_jsonl(binp, [{k: v for k, v in c.items()} for c in cases], timeout=1500, env=env)
@@ -758,6 +915,7 @@ def run(ctx, only=None):
         return
     items, owners = [], []
     walls = []
+    shrunk = set()
     for ci, (c, o) in enumerate(zip(cases, obs)):
         canon = {k: v for k, v in c.items() if k not in ("klass", "cost")}
         if c["op"] != "hist":
@@ -768,7 +926,18 @@ def run(ctx, only=None):
             owners.append((ci, None))
             continue
         ctx.note_case(canon, nontrivial_hist(c, o), c["klass"], sample={"case": {k: v for k, v in c.items() if k != "blobs"}, "impl_result": [(s.get("success"), s.get("error")) for s in o.get("steps", []) if s.get("t") == "pull"]})
-        monitor_hist(ctx, c, o)
+        sk = Sink()
+        monitor_hist(sk, c, o)
+        for m in sk.mismatches:
+            ctx.mismatch(*m)
+        for v in sk.violations:
+            key = sigkey(v["sig"])
+            if key not in shrunk and only is None and not vlib.match_known(ctx.known, v["sig"]) and len(shrunk) < 6:
+                shrunk.add(key)
+                best = shrink(ctx, binp, env, c, v["sig"])
+                if best:
+                    v = dict(best[2], what=best[2]["what"] + " [shrunk from a %d-step %s history]" % (len(c["steps"]), c["klass"]))
+            ctx.violation(v["sig"], v["what"], v["replay"])
         for s in o.get("steps", []):
             if s.get("t") == "pull":
                 ctx.count("pull-" + ("success" if s.get("success") else "failure"))
